@@ -103,6 +103,8 @@ pub fn classing(name: &str, k: usize) -> Classing {
         ),
         // class 1 (the default class of fresh trees) has no local slots
         "zeroslot" => Classing::new(&[(Class(0), k), (Class(1), 0)], Class(1), zeroed_policy),
+        // class 0 (the lowest class) has no local slots
+        "zeroslot0" => Classing::new(&[(Class(0), 0), (Class(1), k)], Class(1), zeroed_policy),
         "custom" => Classing::new(
             &[(Class(0), k), (Class(1), k), (Class(2), k)],
             Class(1),
